@@ -401,6 +401,60 @@ def D43():
     d = eao.io.extract_output(portf, op, res, prices)['dispatch']['S']
     return 'structured asset with window [Jan 4, Jan 7) around assets without dates: active on %d of 10 days, value %.0f' % ((d.abs() > 1e-6).sum(), res.value)
 
+@witness
+def D44():
+    import eaopack as eao
+    tg = A.Timegrid(dt.date(2021, 1, 1), dt.date(2021, 1, 5), freq='h'); prices = {'p': np.sin(np.linspace(0, 30, tg.T))}
+    sc = A.SimpleContract(name='sc', price='p', nodes=N1, min_cap=-10, max_cap=10)
+    st = A.Storage('st', nodes=N1, size=10, cap_in=2, cap_out=2, start_level=5, end_level=5, block_size='d')
+    portf = eao.portfolio.Portfolio([sc, st])
+    v1 = portf.setup_optim_problem(prices, tg).optimize().value
+    v2 = portf.setup_split_optim_problem(prices, tg, interval_size='2d').optimize().value
+    s2 = A.Storage('sto', N1, size=10, cap_in=1, cap_out=1, start_level=0, end_level=5, block_size='d', price='p')
+    r = s2.setup_optim_problem({'p': 30 + 10 * np.sin(np.arange(48) / 4.)}, A.Timegrid(dt.date(2021, 1, 1), dt.date(2021, 1, 3), freq='h')).optimize()
+    return 'daily blocks: unsplit %.4f, split into 2-day intervals %.4f; start level 0 / end level 5: %s' % (v1, v2, r if isinstance(r, str) else 'optimal')
+
+@witness
+def D45():
+    import eaopack as eao
+    def run(sname):
+        tg = A.Timegrid(dt.date(2021, 1, 1), dt.date(2021, 1, 5), freq='d')
+        n_in, n_out = A.Node('inner'), A.Node('outer')
+        src = A.SimpleContract(name='src', nodes=n_in, price='p', min_cap=0., max_cap=10.)
+        tr = A.Transport(name='tr', nodes=[n_in, n_out], min_cap=0., max_cap=10.)
+        s = eao.portfolio.StructuredAsset(name=sname, portfolio=eao.portfolio.Portfolio([src, tr]), nodes=n_out)
+        dem = A.SimpleContract(name='dem', nodes=n_out, min_cap=-5., max_cap=-5.)
+        portf = eao.portfolio.Portfolio([s, dem]); op = portf.setup_optim_problem({'p': np.ones(tg.T)}, tg)
+        return eao.io.extract_output(portf, op, op.optimize())['dispatch'][sname].values[0]
+    return "reported dispatch of the structured asset: %.0f when called 'plant', %.0f when called 'plant_slp_step_1'" % (run('plant'), run('plant_slp_step_1'))
+
+@witness
+def D46():
+    import eaopack as eao
+    tg = A.Timegrid(dt.date(2021, 1, 1), dt.date(2021, 1, 4), freq='h'); prices = {'p': np.arange(tg.T, dtype=float)}
+    base = A.SimpleContract(name='c', price='p', min_cap=-1, max_cap=1, nodes=N1)
+    sc = A.ScaledAsset(name='sc', base_asset=base, max_scale=2, fix_costs=1.)
+    portf = eao.portfolio.Portfolio([sc]); portf.setup_split_optim_problem(prices, tg, interval_size='d')
+    return 'after a split optimisation: grid of the scaled asset has %d steps, grid of its base asset %d' % (sc.timegrid.T, base.timegrid.T)
+
+@witness
+def D47():
+    import eaopack as eao, pandas as pd
+    tg = A.Timegrid(dt.date(2021, 1, 1), dt.date(2021, 1, 4), freq='h')
+    sc = A.SimpleContract(name='m', nodes=N1, price='p', min_cap=-1, max_cap=1)
+    st = A.Storage('s', nodes=N1, size=4, cap_in=1, cap_out=1, start_level=2, end_level=2, block_size='d')
+    portf = eao.portfolio.Portfolio([sc, st])
+    pA = {'p': np.sin(np.linspace(0, 20, tg.T))}; pB = {'p': np.cos(np.linspace(0, 20, tg.T))}
+    rA = portf.setup_split_optim_problem(pA, tg, interval_size='d').optimize()
+    opC = portf.setup_split_optim_problem(pB, tg, interval_size='d', fix_time_window={'I': dt.datetime(2021, 1, 2, 12), 'x': rA.x}); rC = opC.optimize()
+    idx = opC.mapping.index[opC.mapping['time_step'].isin(tg.I[tg.timepoints <= pd.Timestamp(2021, 1, 2, 12)])].unique()
+    return 'split problem with a window fixed up to day 2, 12:00: largest deviation from the previous solution inside the window %.3f' % np.abs(rA.x[idx] - rC.x[idx]).max()
+
+@witness
+def D48():
+    tg = A.Timegrid(dt.date(2021, 1, 1), dt.date(2021, 3, 1), freq='W')
+    return "grid from 2021-01-01 with freq 'W': first time point %s" % str(tg.timepoints[0])[:10]
+
 if __name__ == '__main__':
     which = sys.argv[1:] or list(W)
     for k in which:
